@@ -49,7 +49,7 @@ structure Out (M : Type) where
   msgs : List M
   rest : Bytes
   err  : Option ErrClass
-  deriving Repr
+  deriving Repr, DecidableEq
 
 /-- prepend already delivered messages -/
 def Out.pre {M : Type} (ms : List M) (o : Out M) : Out M := ⟨ms ++ o.msgs, o.rest, o.err⟩
